@@ -91,7 +91,7 @@ def run(ctx):
     ctx.tlc("GatesCheck", "GatesCheck.cfg", workers=1)
     files = oracles.emit(ctx, bn=False, plans=False)
     rnd = random.Random(ctx.seed * 89 + 15)
-    req = {"gates": gate_requests(rnd, thorough), "layouts": layouts(rnd, 40 if thorough else 10)}
+    req = {"gates": gate_requests(rnd, thorough), "layouts": layouts(rnd, 160 if thorough else 10)}
     d = ctx.scratch("gatesemit")
     rq = os.path.join(d, "gates_request.json")
     json.dump(req, open(rq, "w"))
@@ -99,13 +99,13 @@ def run(ctx):
     terms = os.path.join(r["dir"], "gates_terms.json")
     ctx.extra["gate_parameterisations"] = len(req["gates"])
     nsh = common.NCPU
-    jobs = [{"terms": terms, "part": "gates", "nrandom": 3 if thorough else 1, "shard": i, "nshards": nsh} for i in range(nsh)]
+    jobs = [{"terms": terms, "part": "gates", "nrandom": 12 if thorough else 1, "shard": i, "nshards": nsh} for i in range(nsh)]
     # the whole list once more in one process and in reverse order (larger parameters before smaller): a gate's constraints are a
     # function of its identifier and the row, not of what the process evaluated before
     jobs.append({"terms": terms, "part": "gates", "nrandom": 0, "shard": 90, "nshards": 0, "reverse": True})
-    jobs += [{"terms": terms, "part": "layouts", "nrandom": 5 if thorough else 2, "shard": i, "nshards": 4} for i in range(4)]
+    jobs += [{"terms": terms, "part": "layouts", "nrandom": 10 if thorough else 2, "shard": i, "nshards": 4} for i in range(4)]
     pj = dict(files)
-    pj.update({"part": "poseidon", "nrandom": 6 if thorough else 2, "shard": 99})
+    pj.update({"part": "poseidon", "nrandom": 24 if thorough else 2, "shard": 99})
     jobs.append(pj)
 
     def one(j):
